@@ -746,3 +746,8 @@ M("C25", "emu-sv dark-atom branch gated by the config's noise model", "kill",
 M("C25", "twin: dark-atom branch gated by a constructor flag read from the sequence data", "twin",
   [(IMPL, "        self.has_lindblad_noise = len(pulser_data.lindblad_ops) > 0\n", "        self.has_lindblad_noise = len(pulser_data.lindblad_ops) > 0\n        self.has_state_prep_error = pulser_data.state_prep_error > 0.0\n"),
    (IMPL, "        if self.pulser_data.state_prep_error > 0.0:", "        if self.has_state_prep_error:")])
+M("C26", "sweep direction becomes a pair of string constants (identity test breaks after unpickling)", "kill",
+  [(IMPL, "class SwipeDirection(Enum):\n    LEFT_TO_RIGHT = auto()\n    RIGHT_TO_LEFT = auto()", "class SwipeDirection:\n    LEFT_TO_RIGHT = \"left_to_right\"\n    RIGHT_TO_LEFT = \"right_to_left\"")], "PICKLE-identity")
+M("C26", "twin: sweep direction compared by equality", "twin",
+  [(IMPL, "        if self._swipe_direction is SwipeDirection.LEFT_TO_RIGHT:", "        if self._swipe_direction == SwipeDirection.LEFT_TO_RIGHT:"),
+   (IMPL, "            assert self._swipe_direction is SwipeDirection.LEFT_TO_RIGHT", "            assert self._swipe_direction == SwipeDirection.LEFT_TO_RIGHT")])
